@@ -225,28 +225,28 @@ Proof.
   destruct (pos <=? en); cbn [fst]; [apply IP_firstn|]; apply IP_skipn, H.
 Qed.
 
-Lemma translate_one_inv inp g : IP inp -> seg_inv g -> seg_inv (fst (translate_one translate inp g)).
+Lemma translate_one_inv o inp g : IP inp -> seg_inv g -> seg_inv (fst (translate_one translate o inp g)).
 Proof.
   intros Hinp H. unfold translate_one. destruct (status_geb (s_status g) SGuess); [exact H|].
   pose proof (substr_se_ip inp (s_start g) (s_end g) Hinp) as Hsub.
   destruct (substr_se inp (s_start g) (s_end g)) as [s ok]. cbn [fst] in *.
   split; [exact (proj1 H)|].
-  intros m Hm. cbn in Hm. injection Hm as <-. split; [apply Hlen|]. split; [|apply (HMP s (seg_info g)); exact Hsub].
-  intros Hne. cbn [s_sel]. unfold menu_count. destruct (translate s (seg_info g)); [congruence|]. cbn [length]. lia.
+  intros m Hm. cbn in Hm. injection Hm as <-. split; [apply Hlen|]. split; [|apply (HMP s (seg_info o g)); exact Hsub].
+  intros Hne. cbn [s_sel]. unfold menu_count. destruct (translate s (seg_info o g)); [congruence|]. cbn [length]. lia.
 Qed.
 
-Lemma translate_list_inv inp l : IP inp -> segs_inv l -> segs_inv (fst (translate_list translate inp l)).
+Lemma translate_list_inv o inp l : IP inp -> segs_inv l -> segs_inv (fst (translate_list translate o inp l)).
 Proof.
   intros Hinp. induction l as [|g r IH]; intros H; [constructor|]. inversion H; subst. cbn [translate_list].
-  pose proof (translate_one_inv inp g Hinp H2) as H1. destruct (translate_one translate inp g) as [g' ok1].
-  specialize (IH H3). destruct (translate_list translate inp r) as [r' ok2]. cbn [fst] in *. constructor; assumption.
+  pose proof (translate_one_inv o inp g Hinp H2) as H1. destruct (translate_one translate o inp g) as [g' ok1].
+  specialize (IH H3). destruct (translate_list translate o inp r) as [r' ok2]. cbn [fst] in *. constructor; assumption.
 Qed.
 
-Lemma translate_segs_inv sg :
-  IP (sg_input sg) -> segs_inv (sg_segs sg) -> segs_inv (sg_segs (fst (translate_segs translate sg))).
+Lemma translate_segs_inv o sg :
+  IP (sg_input sg) -> segs_inv (sg_segs sg) -> segs_inv (sg_segs (fst (translate_segs translate o sg))).
 Proof.
-  intros Hinp H. unfold translate_segs. pose proof (translate_list_inv (sg_input sg) _ Hinp H) as H1.
-  destruct (translate_list translate (sg_input sg) (sg_segs sg)) as [l ok]. exact H1.
+  intros Hinp H. unfold translate_segs. pose proof (translate_list_inv o (sg_input sg) _ Hinp H) as H1.
+  destruct (translate_list translate o (sg_input sg) (sg_segs sg)) as [l ok]. exact H1.
 Qed.
 
 (** ---- the segmentation's own input is only written by Reset ---- *)
@@ -305,8 +305,8 @@ Proof.
   destruct (sg_segs sg2) as [|g r]; [exact E2|].
   destruct (status_geb (s_status g) SSelected); [rewrite forward_input|]; exact E2.
 Qed.
-Lemma translate_segs_input sg : sg_input (fst (translate_segs translate sg)) = sg_input sg.
-Proof. unfold translate_segs. destruct (translate_list translate (sg_input sg) (sg_segs sg)). reflexivity. Qed.
+Lemma translate_segs_input o sg : sg_input (fst (translate_segs translate o sg)) = sg_input sg.
+Proof. unfold translate_segs. destruct (translate_list translate o (sg_input sg) (sg_segs sg)). reflexivity. Qed.
 
 (** ---- geometry of segmentations ---- *)
 Lemma seg_geo_le n m g : n <= m -> seg_geo n g -> seg_geo m g.
@@ -570,15 +570,15 @@ Proof.
   destruct (status_geb (s_status g) SSelected); cbn [fst]; [apply forward_geo|]; exact H2.
 Qed.
 
-Lemma translate_list_geo inp n l :
+Lemma translate_list_geo o inp n l :
   Forall (seg_geo n) l -> n <= length inp ->
-  Forall (seg_geo n) (fst (translate_list translate inp l)) /\ snd (translate_list translate inp l) = true /\
-  map s_start (fst (translate_list translate inp l)) = map s_start l /\
-  map s_end (fst (translate_list translate inp l)) = map s_end l.
+  Forall (seg_geo n) (fst (translate_list translate o inp l)) /\ snd (translate_list translate o inp l) = true /\
+  map s_start (fst (translate_list translate o inp l)) = map s_start l /\
+  map s_end (fst (translate_list translate o inp l)) = map s_end l.
 Proof.
   intros Hf Hn. induction Hf as [|g r (A & B) Hr IH]; [cbn; repeat split; constructor|].
   cbn [translate_list]. destruct IH as (I1 & I2 & I3 & I4).
-  destruct (translate_list translate inp r) as [r' ok2]. cbn [fst snd] in *. subst ok2.
+  destruct (translate_list translate o inp r) as [r' ok2]. cbn [fst snd] in *. subst ok2.
   unfold translate_one. destruct (status_geb (s_status g) SGuess).
   - cbn [fst snd map]. rewrite I3, I4. repeat split; auto. constructor; [split|]; assumption.
   - unfold substr_se. replace (length inp <? s_start g) with false by (symmetry; apply Nat.ltb_ge; lia).
@@ -594,11 +594,11 @@ Proof.
   cbn [map] in Hs2, He2. injection He2 as He21 _. congruence.
 Qed.
 
-Lemma translate_segs_geo sg : sgeo sg -> sgeo (fst (translate_segs translate sg)) /\ snd (translate_segs translate sg) = true.
+Lemma translate_segs_geo o sg : sgeo sg -> sgeo (fst (translate_segs translate o sg)) /\ snd (translate_segs translate o sg) = true.
 Proof.
   intros (Hc & Hf). unfold translate_segs.
-  destruct (translate_list_geo (sg_input sg) (length (sg_input sg)) (sg_segs sg) Hf (le_n _)) as (T1 & T2 & T3 & T4).
-  destruct (translate_list translate (sg_input sg) (sg_segs sg)) as [l ok]. cbn [fst snd] in *.
+  destruct (translate_list_geo o (sg_input sg) (length (sg_input sg)) (sg_segs sg) Hf (le_n _)) as (T1 & T2 & T3 & T4).
+  destruct (translate_list translate o (sg_input sg) (sg_segs sg)) as [l ok]. cbn [fst snd] in *.
   split; [|exact T2]. split; cbn; [apply (chain_same (sg_segs sg) l T3 T4 Hc) | exact T1].
 Qed.
 
@@ -669,12 +669,12 @@ Proof.
     by (intros G; apply calc_segmentation_geo, G1, G).
   destruct (calc_segmentation cfg (cx_caret c) sg1) as [sg2 okf] eqn:Ec. cbn [fst snd] in H2, Ci, G2.
   assert (Hi2 : IP (sg_input sg2)) by (rewrite Ci; exact Hi1).
-  pose proof (translate_segs_inv sg2 Hi2 H2) as H3.
-  assert (G3 : GE -> sgeo (fst (translate_segs translate sg2)) /\ snd (translate_segs translate sg2) = true)
+  pose proof (translate_segs_inv (cx_opts c) sg2 Hi2 H2) as H3.
+  assert (G3 : GE -> sgeo (fst (translate_segs translate (cx_opts c) sg2)) /\ snd (translate_segs translate (cx_opts c) sg2) = true)
     by (intros G; apply translate_segs_geo, G2, G).
-  destruct (translate_segs translate sg2) as [sg3 oks] eqn:Et. cbn [fst snd] in H3, G3.
+  destruct (translate_segs translate (cx_opts c) sg2) as [sg3 oks] eqn:Et. cbn [fst snd] in H3, G3.
   assert (E3 : sg_input sg3 = sg_input sg2).
-  { pose proof (translate_segs_input sg2) as T. rewrite Et in T. exact T. }
+  { pose proof (translate_segs_input (cx_opts c) sg2) as T. rewrite Et in T. exact T. }
   apply cinv_check.
   { intros ->. left; reflexivity. }
   apply cinv_check.
